@@ -4,6 +4,7 @@ package verifhook
 
 import (
 	"context"
+	"fmt"
 	"sync/atomic"
 )
 
@@ -47,3 +48,6 @@ func Name(ctx context.Context) string {
 	}
 	return ""
 }
+
+// Ptr formats the identity of an object (its address) for use as a hook id.
+func Ptr(p any) string { return fmt.Sprintf("%p", p) }
